@@ -193,6 +193,40 @@ def run(ctx):
         ctx.instance(R5, f"Codec.decode[{guard_label(g, r.id)}]", ok,
                      "a malformed-frame verdict reports len(buffer) as consumed: every valid frame already queued behind the bad one is discarded",
                      loc(r.ast), sample={"rule": R5, "return_line": r.line, "class": c})
+    # ... and does not report more than up to the next frame start inside the bad frame's extent: the dropped length comes out of a
+    # re-synchronisation scan - a ranged search (lower bound behind the frame's own marker) for the same marker the frame-start search uses
+    _sc, _sr, start_lit = dv.start_search()
+    start_txt = start_lit.decode("latin-1") if isinstance(start_lit, bytes) else start_lit
+    resyncs = dv.resync_scans()
+
+    def derived_calls(e, at, seen=None, depth=0):
+        seen = set() if seen is None else seen
+        out = [x for x in ast.walk(e) if isinstance(x, ast.Call)]
+        if depth > 6:
+            return out
+        for x in ast.walk(e):
+            if isinstance(x, ast.Name) and x.id not in (dv.buf, "self"):
+                for d in dv.rd[at].get(x.id, set()):
+                    if (d, x.id) in seen:
+                        continue
+                    seen.add((d, x.id))
+                    v = getattr(g.nodes[d].ast, "value", None)
+                    if v is not None:
+                        out += derived_calls(v, d, seen, depth + 1)
+        return out
+    n_drop = 0
+    for r in dv.returns:
+        if dv.is_message_return(r) or classes[r.id] in ("ALL", "ALL-BUT-TAIL", "KEEP"):
+            continue
+        if unprotected_path(g, r.id, [], marker_found_edges, exc=False) is not None:
+            continue
+        n_drop += 1
+        ok = any(c_ in resyncs for c_ in derived_calls(r.ast.value.elts[1], r.id))
+        ctx.instance(R5, f"Codec.decode[{guard_label(g, r.id)}: resync]", ok,
+                     "the length dropped for a bad frame does not come out of a scan for the next frame start marker inside the frame's extent: a bad frame "
+                     "whose closing SOH was corrupted takes the head of the following valid frame along", loc(r.ast))
+    if n_drop < 3:
+        raise AnalysisError(f"decode: only {n_drop} drop-the-bad-frame return paths found")
     ctx.floor(R5, 5)
 
     # ------------------------------------------------------------------ rule 6
@@ -771,8 +805,9 @@ def first_field_lemma(dv, split_call, node, root, x):
     if not ok:
         return False
     # all text searches that can cut the frame are SOH-anchored
+    rs_ = dv.resync_scans()
     for call, rtxt, lit in dv.searches():
-        if rtxt == dv.buf:
+        if rtxt == dv.buf or call in rs_:
             continue
         if lit is None or not lit.startswith(dv.soh):
             return False
